@@ -9,7 +9,7 @@ RULE = ("command sequences delivered under arrival schedules: strict lock-step (
         "instrumented transport logs every read/write/flush in order; oracle: at every read() the server has flushed "
         "everything it wrote, and the number of complete replies in the flushed output equals the number of reply-expecting "
         "commands wholly contained in the bytes delivered so far; commands delivered in one read are all answered before the "
-        "next read; non-trivial = more than one command; distinct = distinct case text")
+        "next read; plus conversations over an upgraded TLS connection whose transport delivers server bytes only on flush(); non-trivial = more than one command; distinct = distinct case text")
 ASSUMPTIONS = ["real socket blocking, kernel and TLS-engine buffering are below the transport interface and not modelled"]
 
 
@@ -148,3 +148,23 @@ def run(ctx):
     ctx.corr["exhaustive"] = True
     ctx.diff_conn(cases, oracle=oracle, nontrivial=lambda c, o: len(c.meta["cmds"]) > 1,
                   classify=lambda c, o: ["depth_%d" % c.meta["depth"]])
+    # the same over an upgraded (TLS) connection: the transport hands server bytes to the client only on flush()
+    # and counts the reads made while written ciphertext is still unflushed
+    import check
+    from . import c18
+    tcases = []
+    for k, ch in enumerate(("*", [64], [7], [1])):
+        cmds = [("ping", cmd_ping()), ("query", cmd_query(b"q1")), ("ping", cmd_ping()), ("query", cmd_query(b"q2"))]
+        tcases.append(c18.mk("c12tls_%d" % k, cmds=cmds, scripts=["q done 1 2", "q start 1 %s wr 1 i32:5 p fin" % col(b"a", 3, 0)],
+                             chunks=ch, split=rng.choice([0, 5, 10000])))
+    tio, tmo = check.run_tls([(c[0], c[1]) for c in tcases], "C12tls")
+    for cid, text, meta in tcases:
+        a = tio.get(cid, ["<none>"])
+        get = lambda k: next((l[len(k) + 1:] for l in a if l.startswith(k + "|")), None)
+        ctx.corr["evaluations"] += 1
+        ctx.corr["distinct_nontrivial"] += 1
+        ctx.corr["hist"]["over_tls"] = ctx.corr["hist"].get("over_tls", 0) + 1
+        if get("tlsflush") != "ok" or get("result") != "ok":
+            ctx.corr["oracle_failures"] += 1
+            ctx.violation("over TLS: the server waited for input while ciphertext it had written was not flushed to the transport "
+                          "(tlsflush=%s, result=%s) (case %s)" % (get("tlsflush"), get("result"), cid), text, name="oracle")
